@@ -19,6 +19,7 @@ import (
 	"fmt"
 	"math"
 	"regexp"
+	"sort"
 	"strconv"
 	"strings"
 	"sync"
@@ -1720,10 +1721,7 @@ func ExecGroupBy(query *Query, current []any) ([]any, error) {
 	slice := make([]any, 0)
 	for _, key := range order {
 		item := grouped[key]
-		current := make(Map)
-		for innerKey, innerValue := range *key {
-			current[innerKey] = innerValue
-		}
+		current := groupRow(*key)
 		current["*"] = item
 		rs, err := ExecHaving(query, current)
 		if err != nil {
@@ -1735,6 +1733,66 @@ func ExecGroupBy(query *Query, current []any) ([]any, error) {
 
 	}
 	return slice, nil
+}
+
+var groupColumnPath = regexp.MustCompile(`^\w+(\.\w+)+$`)
+
+// groupRow builds the row of a group from its key. A grouping column written as a path of plain
+// keys (t.g, o.k) is put where that path reads it, {o: {k: value}}, so that the select list, HAVING
+// and ORDER BY find it; any other column stays under its whole name
+func groupRow(key map[string]any) Map {
+	paths := make([]string, 0, len(key))
+	for column := range key {
+		if isGroupPath(key, column) {
+			paths = append(paths, column)
+		}
+	}
+	// columns that share their first steps are neighbours in this order
+	sort.Strings(paths)
+	row := groupObject(key, paths, 0)
+	for column, value := range key {
+		if !isGroupPath(key, column) {
+			row[column] = value
+		}
+	}
+	return row
+}
+
+// isGroupPath tells whether a grouping column is a path of plain keys none of whose
+// leading parts is a grouping column itself (a and a.b: a.b then stays under its whole name)
+func isGroupPath(key map[string]any, column string) bool {
+	if !groupColumnPath.MatchString(column) {
+		return false
+	}
+	for i := 0; i < len(column); i++ {
+		if column[i] != '.' {
+			continue
+		}
+		if _, ok := key[column[:i]]; ok {
+			return false
+		}
+	}
+	return true
+}
+
+// groupObject nests the columns, which agree on their first depth steps, under their next steps
+func groupObject(key map[string]any, columns []string, depth int) Map {
+	object := make(Map)
+	for i := 0; i < len(columns); {
+		steps := strings.Split(columns[i], ".")
+		if len(steps) == depth+1 {
+			object[steps[depth]] = key[columns[i]]
+			i++
+			continue
+		}
+		j := i + 1
+		for j < len(columns) && strings.HasPrefix(columns[j], strings.Join(steps[:depth+1], ".")+".") {
+			j++
+		}
+		object[steps[depth]] = groupObject(key, columns[i:j], depth+1)
+		i = j
+	}
+	return object
 }
 
 func ExecHaving(query *Query, current Map, opts ...ExprOption) (bool, error) {
